@@ -11,7 +11,6 @@ Reading guide (definitions in Code/Pycode.lean and Code/PycodeWF.lean):
   `wf W v`          `v` is built from classes that exist in world `W`
   `domOK W v`       the property's own domain (no NaN, hashable keys,
                     `init=False` attributes at their default)
-  `setFree v`       no non-empty set/frozenset (still rendered as lists)
   `importsOK W v`   no two imported classes share a name
 -/
 import XsdataModel.Proofs.Pycode
@@ -37,7 +36,7 @@ theorem literal_formats :
 
 /-- the text the live `repr_object` gives for `(1,)`, `[1]`, `{1}`,
 `frozenset({1})`, `()`, `[]`, `set()`, `frozenset()`, `{}`, `{1: 1}` is what
-the model prints: tuples keep their parentheses, sets become list displays -/
+the model prints: every array kind keeps its own display -/
 theorem layout_probes :
     Tables.reprProbes =
       [Val.tuple [.int 1], .list [.int 1], .set false [.int 1], .set true [.int 1], .tuple [], .list [],
@@ -50,6 +49,11 @@ theorem qname_escapes_ascii :
     Tables.qnameEscAscii = (List.range 128).map (fun i => jsonEscChar (Char.ofNat i)) := by
   decide
 
+/-- a lone surrogate in a QName text is written as its `\udXXX` escape -/
+theorem qname_escapes_surrogates :
+    Tables.qnameEscSurrogates = [0xD800, 0xDBFF, 0xDC00, 0xDFFF].map escapeCp := by
+  decide
+
 /-! ## What holds of the code as it is -/
 
 /-- **qname_text_roundtrips**: whatever the text of a QName — quotes,
@@ -58,6 +62,21 @@ reads the literal that `json.dumps(text, ensure_ascii=False)` wrote back as
 exactly that text. (Lone surrogates are not `Char`s; see NOTES.) -/
 theorem qname_text_roundtrips (t : Str) : decodeDq .normal (jsonBody t) = some t :=
   decodeDq_jsonBody t
+
+/-- **qname_codepoints_roundtrip**: the same for *every* Python string — a
+sequence of code points below U+110000, lone surrogates included: what
+`literal_value` writes (`json.dumps`, then surrogates as `\udXXX`) is read
+back by the parser as exactly those code points; and on strings of scalar
+values it writes what `json.dumps` writes. -/
+theorem qname_codepoints_roundtrip (cps : List Nat) (h : ∀ n ∈ cps, n < 0x110000) :
+    decodeCp .normal (qnameLitBody cps) = some cps :=
+  decodeCp_qnameLitBody cps h
+
+theorem qname_literal_scalar (t : Str) : qnameLitBody (t.map Char.toNat) = jsonBody t :=
+  qnameLitBody_scalar t
+
+example : decodeCp .normal (qnameLitBody [97, 0xD800, 0x1F600, 34, 0xDFFF])
+    = some [97, 0xD800, 0x1F600, 34, 0xDFFF] := by decide
 
 /-- **imports_exact**: the import block binds exactly the outermost names of
 the non-builtin classes collected while rendering — nothing is missing, nothing
@@ -79,17 +98,16 @@ theorem imports_exact (ts : List ClsRef) (m n : Str) :
     simp [importOf, this]
 
 /-- **imports_sufficient (partial)**: for every world and every value in the
-property's domain without a non-empty set, provided no two imported classes
-share a name, each dotted name the emitted expression uses — class
+property's domain, provided no two imported classes share a name, each dotted name the emitted expression uses — class
 constructors at any nesting depth, enum members of nested enums, `QName`,
-`Decimal`, `float`, `set` — resolves, in the namespace created by the emitted
+`Decimal`, `float`, `set`, `frozenset` — resolves, in the namespace created by the emitted
 import lines alone, to exactly the class it was written for. -/
 theorem imports_sufficient_partial (W : World) (v : Val)
-    (hwf : wf W v = true) (hdom : domOK W v = true) (hset : setFree v = true)
+    (hwf : wf W v = true) (hdom : domOK W v = true) 
     (himp : importsOK W v = true) :
     EnvGood W (importsEnv W v) (render W v).refs := by
   intro pc hpc
-  have hok := valOK_of_dom_setFree W v hdom hset
+  have hok := valOK_of_dom W v hdom
   have hg := refs_good W v hwf hok pc hpc
   have hmem := refs_sub_types (render W v) pc hpc
   apply resolve_of_good hg hmem
@@ -107,27 +125,26 @@ theorem imports_sufficient_partial (W : World) (v : Val)
 lines, then the emitted expression — succeeds and yields a value Python-equal
 to the original, for all classes (nested, frozen, with `init=False` fields and
 default factories) and all instances in the domain: members of nested enums,
-tuples (also as dict keys), QNames with any text, ±inf, Decimals, bytes,
-date/time values, empty and nested collections, attribute maps. Fields elided
+tuples (also as dict keys), sets and frozensets, QNames with any text, ±inf,
+Decimals, bytes, date/time values, empty and nested collections, attribute maps. Fields elided
 because they equal their default are restored by the constructor to a value
-equal to the original's. Still excluded: a non-empty set (`setFree`) and an
-import name clash (`importsOK`). -/
+equal to the original's. Still excluded: an import name clash (`importsOK`). -/
 theorem code_rt_partial (W : World) (v : Val)
-    (hwf : wf W v = true) (hdom : domOK W v = true) (hset : setFree v = true)
+    (hwf : wf W v = true) (hdom : domOK W v = true) 
     (himp : importsOK W v = true) :
     ∃ v', run W v = .ok v' ∧ pyEq v' v = true := by
-  obtain ⟨v', h1, h2, _⟩ := rt W (importsEnv W v) v hwf (valOK_of_dom_setFree W v hdom hset)
-    (imports_sufficient_partial W v hwf hdom hset himp)
+  obtain ⟨v', h1, h2, _⟩ := rt W (importsEnv W v) v hwf (valOK_of_dom W v hdom)
+    (imports_sufficient_partial W v hwf hdom himp)
   exact ⟨v', h1, h2⟩
 
 /-- the same, phrased on the outcome class that the correspondence check
 compares with the real `exec` -/
 theorem outcome_equal_partial (W : World) (v : Val)
-    (hwf : wf W v = true) (hdom : domOK W v = true) (hset : setFree v = true)
+    (hwf : wf W v = true) (hdom : domOK W v = true) 
     (himp : importsOK W v = true) :
     outcome W v = cs!"equal" := by
-  obtain ⟨v', hr, he⟩ := code_rt_partial W v hwf hdom hset himp
-  have hrisk := no_risk W v (valOK_of_dom_setFree W v hdom hset)
+  obtain ⟨v', hr, he⟩ := code_rt_partial W v hwf hdom himp
+  have hrisk := no_risk W v (valOK_of_dom W v hdom)
   simp [outcome, hrisk, hr, he]
 
 /-- **code_rt for any adequate namespace**: the round trip does not depend on
@@ -135,17 +152,18 @@ how the names got bound — any namespace in which the references resolve will d
 (e.g. the source pasted into a module that already imports the classes; this is
 also the way around an import name clash). -/
 theorem code_rt_any_env (W : World) (env : Xs.Code.Env) (v : Val)
-    (hwf : wf W v = true) (hdom : domOK W v = true) (hset : setFree v = true)
+    (hwf : wf W v = true) (hdom : domOK W v = true) 
     (henv : EnvGood W env (render W v).refs) :
     ∃ v', eval W env (render W v) = .ok v' ∧ pyEq v' v = true := by
-  obtain ⟨v', h1, h2, _⟩ := rt W env v hwf (valOK_of_dom_setFree W v hdom hset) henv
+  obtain ⟨v', h1, h2, _⟩ := rt W env v hwf (valOK_of_dom W v hdom) henv
   exact ⟨v', h1, h2⟩
 
 /-! The hypotheses are satisfiable by a non-trivial input: nested model
 classes three deep, a non-empty tuple, an `init=False` attribute at its
 default, a default elided across types (`0 == False`), `inf`, a Decimal, a
 QName whose text has a backslash and a double quote, a member of a nested enum,
-a dict with an enum key and one with a tuple key, an empty frozenset. -/
+a dict with an enum key and one with a tuple key, a frozenset of tuples, an
+empty set. -/
 
 def mA : Str := cs!"pkg.mod_a"
 def mB : Str := cs!"pkg.mod_b"
@@ -168,15 +186,15 @@ def good : Val :=
   .model outerR [
     .list [.model deepR [.list [.float .pinf cs!"inf", .opaque decR [cs!"Decimal"] cs!"('1.50')" (some (.fin 3 2))]],
            .model in2R [.dict [(.enum topR cs!"B", .qname cs!"{a\\b}\"x")]]],
-    .tuple [.enum innerR cs!"A", .dict [(.tuple [.int 1, .int 2], .set true [])]], en, .bool false]
+    .tuple [.enum innerR cs!"A", .dict [(.tuple [.int 1, .int 2], .set true [.tuple [.int 3], .none]), (.int 0, .set false [])]], en, .bool false]
 
-example : wf W1 good = true ∧ domOK W1 good = true ∧ setFree good = true ∧ importsOK W1 good = true := by decide
+example : wf W1 good = true ∧ domOK W1 good = true ∧ importsOK W1 good = true := by decide
 example : outcome W1 good = cs!"equal" := by decide
 
 /-! ## Full-strength statements and why they still fail -/
 
 /-- C18, first half, at full strength: every instance in the domain
-round-trips. **False** of the code as it stands (sets, import name clashes). -/
+round-trips. **False** of the code as it stands (import name clashes). -/
 def CodeRoundTrips : Prop :=
   ∀ (W : World) (v : Val), wf W v = true → domOK W v = true →
     ∃ v', run W v = .ok v' ∧ pyEq v' v = true
@@ -222,20 +240,6 @@ theorem envGoodB_of {W : World} {env : Xs.Code.Env} {refs : List (List Str × Cl
   intro pc hpc
   simp [h pc hpc]
 
-/-- **Defect — non-empty sets are rendered as list displays.** `Outer(x={1, 2})`
-evaluates back to `Outer(x=[1, 2])`, which is not equal (likewise frozensets). -/
-def setWitness : Val := .model outerR [.set false [.int 1, .int 2], .tuple [], en, .int 0]
-def frozensetWitness : Val := .model outerR [.set true [.int 1], .tuple [], en, .int 0]
-
-theorem set_rendered_as_list :
-    wf W1 setWitness = true ∧ domOK W1 setWitness = true ∧ importsOK W1 setWitness = true ∧
-    source W1 setWitness cs!"obj"
-      = cs!"from pkg.mod_a import Outer\n\n\nobj = Outer(\n    x=[\n        1,\n        2,\n    ]\n)\n" ∧
-    givesUnequal W1 setWitness = true ∧
-    wf W1 frozensetWitness = true ∧ domOK W1 frozensetWitness = true ∧
-    givesUnequal W1 frozensetWitness = true := by
-  decide
-
 /-- **Defect — the same class name imported from two modules.** The later
 import shadows the earlier one; the source then builds the wrong class
 (unequal) or passes it a keyword it does not know (TypeError). -/
@@ -248,52 +252,53 @@ def clashWitness1 : Val := .model addrA [.model addrB [.none, .int 1], .int 0]
 def clashWitness2 : Val := .model addrB [.model addrA [.none, .int 1], .int 0]
 
 theorem import_name_clash :
-    wf W2 clashWitness1 = true ∧ domOK W2 clashWitness1 = true ∧ setFree clashWitness1 = true ∧
+    wf W2 clashWitness1 = true ∧ domOK W2 clashWitness1 = true ∧
     importsEnv W2 clashWitness1 = [(mA, cs!"Address"), (mB, cs!"Address")] ∧
     givesUnequal W2 clashWitness1 = true ∧
-    wf W2 clashWitness2 = true ∧ domOK W2 clashWitness2 = true ∧ setFree clashWitness2 = true ∧
+    wf W2 clashWitness2 = true ∧ domOK W2 clashWitness2 = true ∧
     failsWith W2 clashWitness2 .typeError = true ∧
     envGoodB W2 (importsEnv W2 clashWitness1) (render W2 clashWitness1).refs = false := by
   decide
 
-/-- the full-strength round-trip statement is false (two independent witnesses) -/
+/-- the full-strength round-trip statement is false -/
 theorem not_codeRoundTrips : ¬ CodeRoundTrips := fun h =>
-  not_rt_of_unequal set_rendered_as_list.2.2.2.2.1
-    (h W1 setWitness set_rendered_as_list.1 set_rendered_as_list.2.1)
-
-theorem not_codeRoundTrips_clash : ¬ CodeRoundTrips := fun h =>
-  not_rt_of_unequal import_name_clash.2.2.2.2.1
+  not_rt_of_unequal import_name_clash.2.2.2.1
     (h W2 clashWitness1 import_name_clash.1 import_name_clash.2.1)
 
 /-- the full-strength import statement is false: name clash -/
 theorem not_importsSufficient : ¬ ImportsSufficient := by
   intro h
   have := envGoodB_of (h W2 clashWitness1 import_name_clash.1 import_name_clash.2.1)
-  rw [import_name_clash.2.2.2.2.2.2.2.2.2] at this
+  rw [import_name_clash.2.2.2.2.2.2.2] at this
   cases this
 
-/-- Each remaining exclusion is needed: the set witnesses satisfy every other
-hypothesis of `code_rt_partial` (`wf`, `domOK`, `importsOK`), the clash
-witnesses satisfy `wf`, `domOK`, `setFree`. -/
+/-- The remaining exclusion is needed: the clash witnesses satisfy `wf` and
+`domOK` and violate only `importsOK`. -/
 theorem exclusions_are_tight :
-    setFree setWitness = false ∧ setFree frozensetWitness = false ∧
     importsOK W2 clashWitness1 = false ∧ importsOK W2 clashWitness2 = false := by
   decide
 
-/-! ## The three repaired defects stay repaired
+/-! ## The repaired defects stay repaired
 
 The witnesses of the former counterexample theorems (`nested_enum_name_error`,
-`tuple_rendered_as_list`, `qname_text_unescaped`) now fall under
-`code_rt_partial`; their emitted text and outcome, for the record. -/
+`tuple_rendered_as_list`, `qname_text_unescaped`, `set_rendered_as_list`) now
+fall under `code_rt_partial`; their emitted text and outcome, for the record. -/
 
 def nestedEnumWitness : Val := .model outerR [.enum innerR cs!"A", .tuple [], en, .int 0]
 def tupleWitness : Val := .model outerR [.none, .tuple [.int 1, .int 2], en, .int 0]
 def tupleKeyWitness : Val := .dict [(.tuple [.int 1, .int 2], .int 3)]
+def setWitness : Val := .model outerR [.set false [.int 1, .int 2], .tuple [], en, .int 0]
+def frozensetWitness : Val := .model outerR [.set true [.int 1], .tuple [], en, .int 0]
 def qnameWitness : Val := .model outerR [.qname cs!"{a\\b}\"x", .tuple [], en, .int 0]
 
 theorem repaired_witnesses :
     outcome W1 nestedEnumWitness = cs!"equal" ∧ outcome W1 tupleWitness = cs!"equal" ∧
     outcome W1 tupleKeyWitness = cs!"equal" ∧ outcome W1 qnameWitness = cs!"equal" ∧
+    outcome W1 setWitness = cs!"equal" ∧ outcome W1 frozensetWitness = cs!"equal" ∧
+    source W1 setWitness cs!"obj"
+      = cs!"from pkg.mod_a import Outer\n\n\nobj = Outer(\n    x={\n        1,\n        2,\n    }\n)\n" ∧
+    source W1 frozensetWitness cs!"obj"
+      = cs!"from pkg.mod_a import Outer\n\n\nobj = Outer(\n    x=frozenset({\n        1,\n    })\n)\n" ∧
     source W1 nestedEnumWitness cs!"obj"
       = cs!"from pkg.mod_a import Outer\n\n\nobj = Outer(\n    x=Outer.Inner.A\n)\n" ∧
     source W1 tupleWitness cs!"obj"
